@@ -328,14 +328,16 @@ func checkC10(r *evid.Run) {
 // notation must agree with the sequential generator for every interleaving; for documents that mix
 // notations TLC is expected to return the order-dependence that the drivers reproduce (open finding).
 func parserSharedModels(r *evid.Run) {
-	res, err := tlcrun.Run(tlcrun.Opts{SpecDir: specDir, Module: "MC_PS", Cfg: "MC_PS_one.cfg", Timeout: 10 * time.Minute}, nil)
-	if err != nil || res.Violated != "" || res.ErrorText != "" {
-		r.Broken("ParserShared (one notation) fails: %v %s %s\n%s", err, res.Violated, res.ErrorText, tail(res))
-		return
+	for _, cfg := range []string{"MC_PS_one.cfg", "MC_PS_bullets.cfg", "MC_PS_headings.cfg"} {
+		res, err := tlcrun.Run(tlcrun.Opts{SpecDir: specDir, Module: "MC_PS", Cfg: cfg, Timeout: 15 * time.Minute}, nil)
+		if err != nil || res.Violated != "" || res.ErrorText != "" {
+			r.Broken("ParserShared (%s) fails: %v %s %s\n%s", cfg, err, res.Violated, res.ErrorText, tail(res))
+			return
+		}
+		r.Count("states", res.Distinct)
+		r.Count("transitions", res.Generated)
+		fmt.Printf("model MC_PS/%s: %d distinct states: every interleaving of 2 workers agrees with the sequential generator\n", cfg, res.Distinct)
 	}
-	r.Count("states", res.Distinct)
-	r.Count("transitions", res.Generated)
-	fmt.Printf("model MC_PS/MC_PS_one.cfg: %d distinct states, every interleaving of 2 workers agrees with the sequential generator\n", res.Distinct)
 	res2, err := tlcrun.Run(tlcrun.Opts{SpecDir: specDir, Module: "MC_PS", Cfg: "MC_PS_mixed.cfg", Timeout: 10 * time.Minute}, nil)
 	if err == nil {
 		r.Set("parser_shared_mixed_notation_counterexample", res2.Violated)
